@@ -75,7 +75,8 @@ def random_history(r):
             present[a, min(F, g + int(r.integers(1, 8))):] = True
         else:
             present[a] = (np.arange(F) + a) % int(r.integers(2, 4)) == 0
-    thr_scores = r.choice([0.3, 0.5, 0.5000001, 0.7, 0.9, 1.0], size=(K, F))
+    # incl. scores above a threshold (0 or 0.5) by less than float32 resolution: they exceed it and must get a track
+    thr_scores = r.choice([0.3, 0.5, 0.5000001, float(np.nextafter(0.5, 1)), 0.5 * (1 + 1e-12), 1e-60, 0.7, 0.9, 1.0], size=(K, F))
     frames = []
     for f in range(F):
         dets = []
